@@ -70,7 +70,8 @@ def build(rnd):
     if rnd.int(0, 3) == 0:
         case["edits"] = []
     case["early"] = [rnd.int(0, 4) == 0 for _ in range(n)]
-    case["opts"] = rnd.pick([{}, {}, {}, {"body_size_limit": "10"}, {"stream_large_bodies": "5"},
+    case["opts"] = rnd.pick([{}, {}, {}, {"body_size_limit": "10"}, {"stream_large_bodies": "5"}, {"validate_inbound_headers": False},
+                             {"validate_inbound_headers": False, "stream_large_bodies": "5"},
                              {"body_size_limit": "40", "stream_large_bodies": "3"}, {"store_streamed_bodies": True, "stream_large_bodies": "1"}])
     return case
 
